@@ -97,6 +97,11 @@ type Interp struct {
 	syncTrace          *[]syncEv
 	poolChoice         bool
 	poolSeq            int
+	svCache            map[*Term]*Term
+	satCache           map[*Term]*bitset
+	useDomains         bool
+	domQueries         int
+	crossCheck         int
 }
 
 func (i *Interp) unsupported(format string, args ...any) {
